@@ -76,8 +76,7 @@ class TypeRegistry:
             if not self.validator(f):
                 raise TypeError(f'Invalid register target: {f}, must pass <{self.validator}> validate')
             self._registry.insert(0, (detector, f, priority))
-            if priority:
-                self._registry.sort(key=lambda v: -v[2])
+            self._registry.sort(key=lambda v: -v[2])
             return f
 
         # before runtime, type will be compiled and applied
